@@ -6,7 +6,8 @@ import ast
 from .. import compile as CP
 from ..core import Report
 from ..front import walk_no_nested
-from ..interp import Raised
+from .. import expr as E
+from ..interp import Raised, TV
 
 META = {
     "level": "other",
@@ -266,7 +267,46 @@ def run(rep: Report) -> None:
                   f"`Network.{name}` is (or reads) memoised {sorted(set(bad))}: it depends on the elements' "
                   "initialisation/stepping state, which init_vars/step never invalidate, so elements initialised "
                   "or stepped after the first read are invisible to to_function", key=f"cached-typestate|{name}")
-    rep.floor("network enumerations read by to_function", len(have), 5)
+    # the same, decided on an interpreted network with caching semantics (functools.cached_property
+    # and functools.cache memoise as in CPython): every enumeration is read while no element is
+    # initialised, then one link gets its variables and next states - the second read shows them
+    from ..histories import HistWorld
+    from ..interp import FuncV as _FuncV
+
+    n_enum = 0
+    hw = HistWorld(prog)
+    hit = hw.interp()
+    n1, n2 = hw.node("n1"), hw.node("n2")
+    l1 = hw.link("l1", nseg=2)
+    o1 = hw.origin("o1", "MeteredOnRamp")
+    try:
+        for meth, a, kw in (("add_link", [n1, l1, n2], {}), ("add_origin", [o1, n1], {})):
+            mfi = prog.function("sym_metanet.network", f"Network.{meth}")
+            hit.call(_FuncV(mfi, hw.net, defcls=mfi.cls), a, kw, None, None)
+        before = {}
+        for name in anchors:
+            v = hit.getattr(hw.net, name, None, None)
+            before[name] = list(hit.iterate(v, None, None)) if not isinstance(v, dict) else dict(v)
+        l1.attrs["states"] = {"rho": TV(E.V("rho", "l1"), 1, False), "v": TV(E.V("v", "l1"), 1, False)}
+        l1.attrs["next_states"] = {"rho": TV(E.V("rho+", "l1"), 1), "v": TV(E.V("v+", "l1"), 1)}
+        o1.attrs["states"] = {"w": TV(E.S("o1.w"), 1, False)}
+        o1.attrs["actions"] = {"r": TV(E.S("o1.r"), 1, False)}
+        o1.attrs["disturbances"] = {"d": TV(E.S("o1.d"), 1, False)}
+        expect = {"elements": [l1, o1], "states": {l1, o1}, "next_states": {l1}, "actions": {o1}, "disturbances": {o1}}
+        for name in anchors:
+            v = hit.getattr(hw.net, name, None, None)
+            got = list(hit.iterate(v, None, None)) if not isinstance(v, dict) else list(v)
+            n_enum += 1
+            good = (got == expect[name]) if name == "elements" else (set(got) == expect[name])
+            rep.check(good, "enumerations-fresh", f"Network.{name} read before and after the elements get their variables",
+                      f"{prog.module('sym_metanet.network').relpath} Network.{name}",
+                      f"after l1 and o1 were initialised (l1 stepped) `Network.{name}` lists {got!r}, expected "
+                      f"{sorted(map(repr, expect[name]))}: elements initialised or stepped after the first read are "
+                      "invisible to to_function", key=f"enum-fresh|{name}")
+    except Raised as e:
+        rep.refuted("enumerations-fresh", "Network enumerations", prog.module("sym_metanet.network").relpath,
+                    f"reading the enumerations raises {e.exc}: {e.msg}", key="enum-fresh|raise")
+    rep.floor("network enumerations read before/after initialisation", n_enum, 5)
 
     # ---------- (c'') initialising again creates new variables (so that next states computed
     # from the old ones mention symbols that are no longer arguments, which CasADi rejects)
